@@ -3,12 +3,12 @@
     line numbers and lexer post-states, i.e. however much ignorable whitespace, punctuation, comments or
     blank space lies between the tokens — are parsed to trees that are equal after erasing source positions,
     or are both rejected.  Poetic *string* literals are raw source text: the relation therefore also asks the
-    two sources to agree on the raw text between a `says` / `say` token and the end of its line.  (`say` is
-    accepted by the parser as a poetic-string marker after a variable; since the relation is on token lists and
-    does not know which `say` tokens start a statement, it fixes the raw text after every `say` as well: layout
-    inside the rest of a `say` line is not covered by this theorem, everything else is.) *)
+    two sources to agree on the raw text between a `says` token and the end of its line — and likewise for a
+    `say` token that is not the first token of its line (the parser accepts `say` as a poetic-string marker
+    after a variable; a `say` that starts a line starts an output statement, whose layout is free). *)
 From Coq Require Import List ZArith NArith Bool Lia.
-From RRSS Require Import Base.Outcome Base.Chars Base.F64 Exec.Ops Front.Ast Front.Token Front.Lexer Front.Parser.
+From RRSS Require Import Base.Outcome Base.Chars Base.F64 Exec.Ops Front.Ast Front.Token Front.Lexer Front.Parser Front.Grammar.
+From RRSS Require Import Proofs.GrammarLaws Proofs.ParseSound.
 Import ListNotations.
 
 (** * Erasing positions *)
@@ -89,6 +89,84 @@ Proof.
   destruct H as [H1 H2]. rewrite H1, H2. reflexivity.
 Qed.
 
+(** * Tokens that end a line *)
+Definition bolflag (t : token) : bool := is_id TNewline t && negb (is_word (tspell t)).
+Definition nlf (t : token) : Prop := bolflag t = false.
+
+Lemma eqb_newline x : ttype_eqb TNewline x = true -> x = TNewline.
+Proof. destruct x; cbn; intro H; try discriminate; reflexivity. Qed.
+
+Lemma tid_nlf t : tid t <> TNewline -> nlf t.
+Proof.
+  intro H. unfold nlf, bolflag, is_id. destruct (ttype_eqb TNewline (tid t)) eqn:E; [|reflexivity].
+  apply eqb_newline in E. contradiction.
+Qed.
+
+Lemma word_nlf t : is_word (tspell t) = true -> nlf t.
+Proof. intro H. unfold nlf, bolflag. rewrite H. apply andb_false_r. Qed.
+
+Lemma one_of_nlf ids t : existsb (ttype_eqb TNewline) ids = false -> is_one_of ids t = true -> nlf t.
+Proof.
+  intros Hi Ht. apply tid_nlf. intro E. unfold is_one_of, ttype_in in Ht. rewrite E in Ht. rewrite Hi in Ht. discriminate.
+Qed.
+
+Lemma is_id_nlf id t : ttype_eqb TNewline id = false -> is_id id t = true -> nlf t.
+Proof.
+  intros Hi Ht. apply tid_nlf. intro E. unfold is_id in Ht. rewrite E in Ht.
+  destruct id; cbn in *; try discriminate.
+Qed.
+
+Lemma g_var_nlf ts n : g_var ts n -> ts <> [] /\ Forall nlf ts.
+Proof.
+  destruct 1 as [tp tw Hp Hw|t Ht|ts Hl Hf].
+  - split; [discriminate|]. constructor; [apply tid_nlf; rewrite Hp; discriminate|]. constructor; [apply word_nlf; auto|constructor].
+  - split; [discriminate|]. constructor; [apply tid_nlf; rewrite Ht; discriminate|constructor].
+  - split; [destruct ts; cbn in Hl; [lia|discriminate]|].
+    eapply Forall_impl; [|exact Hf]. intros t [Ht _]. apply tid_nlf. rewrite Ht. discriminate.
+Qed.
+
+Lemma g_fancy_nlf tops op : g_fancy_op tops op -> Forall nlf tops.
+Proof.
+  destruct 1 as [|t Ht|t1 t2 op H1 H2 H3|t1 t2 t3 op H1 H2 H3 H4]; repeat constructor;
+    try (apply tid_nlf; congruence); try (eapply one_of_nlf; [|eassumption]; reflexivity).
+Qed.
+
+Lemma g_comma_nlf tc : g_comma tc -> Forall nlf tc.
+Proof. destruct 1 as [c Hc|c a Hc Ha]; repeat constructor; apply tid_nlf; try rewrite Hc; try rewrite Ha; discriminate. Qed.
+
+Lemma g_argsep_nlf ts : g_argsep ts -> Forall nlf ts.
+Proof.
+  destruct 1 as [t Ht|c a Hc Ha]; repeat constructor.
+  - eapply one_of_nlf; [|exact Ht]. reflexivity.
+  - apply tid_nlf. rewrite Hc. discriminate.
+  - apply tid_nlf. rewrite Ha. discriminate.
+Qed.
+
+Lemma lit_nlf t l : literal_of_token (tid t) = Some l -> nlf t.
+Proof. intro H. apply tid_nlf. intro E. rewrite E in H. discriminate. Qed.
+
+(** no token of an expression ends a line *)
+Theorem g_primary_nlf : forall ts p, g_primary ts p -> Forall nlf ts.
+Proof.
+  apply (g_primary_mind (fun ts _ _ => Forall nlf ts) (fun ts _ _ => Forall nlf ts) (fun _ ts _ _ => Forall nlf ts)
+                        (fun _ ts _ _ => Forall nlf ts) (fun ts _ _ => Forall nlf ts)); intros;
+    repeat (apply Forall_app; split); repeat (apply Forall_cons); auto;
+    try (apply tid_nlf; congruence);
+    try (eapply g_var_nlf; eassumption);
+    try (eapply lit_nlf; eassumption);
+    try (eapply g_fancy_nlf; eassumption); try (eapply g_comma_nlf; eassumption); try (eapply g_argsep_nlf; eassumption).
+  - eapply one_of_nlf; [|exact e]. reflexivity.
+  - destruct L as [|[|[|[|[|L]]]]]; cbn [ops_at] in e; try (unfold is_one_of, ttype_in in e; cbn in e; discriminate);
+      (eapply one_of_nlf; [|exact e]; reflexivity).
+  - eapply one_of_nlf; [|exact e]. reflexivity.
+Qed.
+
+Lemma g_ident_nlf ts i : g_ident ts i -> ts <> [] /\ Forall nlf ts.
+Proof.
+  destruct 1 as [ts n Hv|t Ht]; [eapply g_var_nlf; eauto|].
+  split; [discriminate|]. constructor; [apply tid_nlf; rewrite Ht; discriminate|constructor].
+Qed.
+
 Section Layout.
 Variable prof : profile.
 Variables buf buf' : str.
@@ -108,7 +186,7 @@ Definition same_class {A} (R : A -> A -> Prop) (r r' : pres A) : Prop :=
   | _, _ => False
   end.
 
-Definition is_says (t : token) : bool := match tid t with TSays | TSay => true | _ => false end.
+Definition is_says (t : token) : bool := match tid t with TSays => true | _ => false end.
 
 Inductive tksim : list ptoken -> list ptoken -> Prop :=
   | tk_nil : tksim [] []
@@ -118,7 +196,28 @@ Inductive tksim : list ptoken -> list ptoken -> Prop :=
          same_class eq (ptext buf (pt_tok pt) (mkPS l ln lc pl)) (ptext buf' (pt_tok pt') (mkPS l' ln' lc' pl'))) ->
       tksim (pt :: l) (pt' :: l').
 
-Definition ssim (s s' : pstate) : Prop := tksim (toks s) (toks s') /\ plist s = plist s'.
+(** the two token lists being parsed, of which every parser state holds a suffix *)
+Variables full full' : list ptoken.
+
+Definition at_pos (s s' : pstate) : Prop :=
+  exists pre pre', full = pre ++ toks s /\ full' = pre' ++ toks s' /\ length pre = length pre'.
+
+Definition ssim (s s' : pstate) : Prop := tksim (toks s) (toks s') /\ plist s = plist s' /\ at_pos s s'.
+
+Lemma ssim_retok s s' t t' : ssim s s' -> toks t = toks s -> toks t' = toks s' -> plist t = plist t' -> ssim t t'.
+Proof.
+  intros (Hk & Hl & Hp) E E' El. unfold ssim, at_pos. rewrite E, E'. auto.
+Qed.
+
+(** a `say` in the middle of a line: the raw text after it agrees *)
+Definition line_started (pre : list ptoken) : Prop :=
+  match rev pre with p :: _ => nlf (pt_tok p) | [] => False end.
+
+Hypothesis Hsay : forall pre pt l pre' pt' l',
+  full = pre ++ pt :: l -> full' = pre' ++ pt' :: l' -> length pre = length pre' ->
+  tid (pt_tok pt) = TSay -> line_started pre ->
+  forall ln lc pl ln' lc' pl',
+    same_class eq (ptext buf (pt_tok pt) (mkPS l ln lc pl)) (ptext buf' (pt_tok pt') (mkPS l' ln' lc' pl')).
 
 Definition rsim {A} (R : A -> A -> Prop) (r r' : pres (A * pstate)) : Prop :=
   same_class (fun x x' => R (fst x) (fst x') /\ ssim (snd x) (snd x')) r r'.
@@ -128,6 +227,14 @@ Proof. induction 1; cbn; congruence. Qed.
 
 Lemma rsim_bind {A B} (R : A -> A -> Prop) (Q : B -> B -> Prop) (m m' : pres (A * pstate)) (f f' : A * pstate -> pres (B * pstate)) :
   rsim R m m' -> (forall a s a' s', R a a' -> ssim s s' -> rsim Q (f (a, s)) (f' (a', s'))) ->
+  rsim Q (bind m f) (bind m' f').
+Proof.
+  intros Hm Hf. destruct m as [[a s]| | | | |], m' as [[a' s']| | | | |]; cbn in *; try contradiction; auto.
+  all: try (destruct Hm; apply Hf; auto).
+Qed.
+
+Lemma rsim_bind_eq {A B} (R : A -> A -> Prop) (Q : B -> B -> Prop) (m m' : pres (A * pstate)) (f f' : A * pstate -> pres (B * pstate)) :
+  rsim R m m' -> (forall a s a' s', m = Ok (a, s) -> m' = Ok (a', s') -> R a a' -> ssim s s' -> rsim Q (f (a, s)) (f' (a', s'))) ->
   rsim Q (bind m f) (bind m' f').
 Proof.
   intros Hm Hf. destruct m as [[a s]| | | | |], m' as [[a' s']| | | | |]; cbn in *; try contradiction; auto.
@@ -161,7 +268,12 @@ Lemma advance_sim s s' : ssim s s' ->
   | None, None => True
   | _, _ => False
   end.
-Proof. intros [H Hl]. unfold advance. destruct H; auto. split; auto. split; auto. Qed.
+Proof.
+  intros (H & Hl & (pre & pre' & E & E' & Hn)). unfold advance.
+  destruct H as [|pt pt' l l' Ht Hk Hs]; auto. split; auto. split; [exact Hk|]. split; [exact Hl|].
+  exists (pre ++ [pt]), (pre' ++ [pt']). cbn [toks] in *. rewrite <- !app_assoc. cbn. repeat split; auto.
+  rewrite !app_length. cbn. lia.
+Qed.
 
 Lemma mac_sim m s s' : resp m -> ssim s s' ->
   match match_and_consume m s, match_and_consume m s' with
@@ -245,15 +357,21 @@ Definition says_ok (t : token) (s : pstate) (t' : token) (s' : pstate) : Prop :=
 
 Lemma expect_any_sim ids s s' : ssim s s' ->
   match expect_any ids s, expect_any ids s' with
-  | Ok (t, s1), Ok (t', s1') => tsim t t' /\ ssim s1 s1' /\ says_ok t s1 t' s1'
+  | Ok (t, s1), Ok (t', s1') =>
+      tsim t t' /\ ssim s1 s1' /\ says_ok t s1 t' s1' /\
+      exists pre pre' pt pt', full = pre ++ pt :: toks s1 /\ full' = pre' ++ pt' :: toks s1' /\ length pre = length pre' /\
+                              pt_tok pt = t /\ pt_tok pt' = t' /\ full = pre ++ toks s
   | Err _, Err _ => True
   | _, _ => False
   end.
 Proof.
-  intros [H Hl]. unfold expect_any, match_and_consume, current, advance.
+  intro Hss. pose proof (advance_sim s s' Hss) as A.
+  destruct Hss as (H & Hl & (pre & pre' & E & E' & Hn)).
+  unfold expect_any, match_and_consume, current. unfold advance in *.
   destruct H as [|pt pt' l l' Ht Hk Hs]; [exact I|].
   rewrite (resp_is_one_of ids _ _ Ht). destruct (is_one_of ids (pt_tok pt')); [|exact I].
-  split; auto. split; [split; auto|]. intro Hy. apply Hs. exact Hy.
+  destruct A as [_ A]. split; auto. split; [exact A|]. split; [intro Hy; apply Hs; exact Hy|].
+  exists pre, pre', pt, pt'. cbn [toks] in *. repeat split; auto.
 Qed.
 
 (** * Identifiers and literals *)
@@ -455,10 +573,11 @@ Proof.
   destruct (strip_prefix (lit " ") s1); reflexivity.
 Qed.
 
-Lemma parse_poetic_string_rhs_sim says s says' s' : is_says says = true -> says_ok says s says' s' -> ssim s s' ->
+Lemma parse_poetic_string_rhs_sim says s says' s' :
+  same_class eq (ptext buf says s) (ptext buf' says' s') -> ssim s s' ->
   rsim eq (parse_poetic_string_rhs buf says s) (parse_poetic_string_rhs buf' says' s').
 Proof.
-  intros Hy Hk H. rewrite !pps_split. eapply class_bind; [exact (Hk Hy)|].
+  intros Hk H. rewrite !pps_split. eapply class_bind; [exact Hk|].
   intros a a' ->. split; [reflexivity|]. cbn. rewrite (tksim_length _ _ (proj1 H)). apply drop_until_newline_sim. exact H.
 Qed.
 
@@ -486,11 +605,11 @@ Section Comb.
     rsim Rel (parse_expression_list next fuel s) (parse_expression_list next' fuel s').
   Proof.
     intro H. unfold parse_expression_list. eapply rsim_bind; [apply Hnext; exact H|].
-    intros first s1 first' s1' Hf Hs. destruct Hs as [Hk Hl]. rewrite Hl.
+    intros first s1 first' s1' Hf Hs. pose proof Hs as (Hk & Hl & Hp). rewrite Hl.
     destruct (plist s1').
-    - split; [split; [exact Hf|reflexivity]|]. split; cbn; auto.
-    - eapply rsim_bind; [apply list_tail_sim; [split; cbn; auto|reflexivity]|].
-      intros r s3 r' s3' Hr [Hk3 _]. split; [split; auto|]. split; cbn; auto.
+    - split; [split; [exact Hf|reflexivity]|]. cbn [snd]. eapply ssim_retok; [exact Hs| | |]; reflexivity.
+    - eapply rsim_bind; [apply list_tail_sim; [eapply ssim_retok; [exact Hs| | |]; reflexivity|reflexivity]|].
+      intros r s3 r' s3' Hr Hs3. split; [split; auto|]. cbn [snd]. eapply ssim_retok; [exact Hs3| | |]; reflexivity.
   Qed.
 
   Lemma binary_loop_sim ops : forall fuel e e' s s', Re e e' -> ssim s s' ->
@@ -640,6 +759,46 @@ Qed.
 Theorem EL_all f : EL f.
 Proof. induction f; [apply EL_0|apply EL_S; auto]. Qed.
 
+(** * Where a state stands in its line *)
+Definition started (s : pstate) : Prop := forall pre, full = pre ++ toks s -> line_started pre.
+
+Lemma suffix_split {X} : forall (pre pre1 a b : list X), pre ++ a = pre1 ++ b -> (length b <= length a)%nat ->
+  exists mid, a = mid ++ b /\ pre1 = pre ++ mid.
+Proof.
+  induction pre as [|x pre IH]; intros pre1 a b H L; cbn in *.
+  - exists pre1. auto.
+  - destruct pre1 as [|y pre1]; cbn in *.
+    + exfalso. subst b. cbn in L. rewrite app_length in L. lia.
+    + injection H as -> H. destruct (IH _ _ _ H L) as (mid & E1 & E2). exists mid. subst. auto.
+Qed.
+
+Lemma line_started_app pre mid : Forall nlf (map pt_tok mid) -> (mid <> [] \/ line_started pre) -> line_started (pre ++ mid).
+Proof.
+  intros Hf Hor. unfold line_started. rewrite rev_app_distr.
+  destruct (rev mid) as [|p r] eqn:E.
+  - cbn. assert (mid = []) by (apply (f_equal (@rev _)) in E; rewrite rev_involutive in E; exact E).
+    destruct Hor as [Hne|Hs]; [contradiction|exact Hs].
+  - cbn. assert (Hin : In p mid) by (apply in_rev; rewrite E; left; reflexivity).
+    rewrite Forall_forall in Hf. apply Hf. apply in_map. exact Hin.
+Qed.
+
+(** a parser step that consumed the tokens [ts] *)
+Lemma started_step s s1 ts : ptoks s = ts ++ ptoks s1 -> (exists pre, full = pre ++ toks s) -> (exists pre1, full = pre1 ++ toks s1) ->
+  Forall nlf ts -> (ts <> [] \/ started s) -> started s1.
+Proof.
+  intros Hp (pre & E) (pre1 & E1) Hf Hor pre1' E1'.
+  assert (pre1' = pre1) by (rewrite E1 in E1'; apply app_inv_tail in E1'; auto). subst pre1'.
+  unfold ptoks in Hp.
+  assert (L : (length (toks s1) <= length (toks s))%nat).
+  { apply (f_equal (@length _)) in Hp. rewrite app_length, !map_length in Hp. lia. }
+  rewrite E in E1. destruct (suffix_split _ _ _ _ E1 L) as (mid & Em & ->).
+  rewrite Em, map_app in Hp. apply app_inv_tail in Hp. subst ts.
+  apply line_started_app; auto. destruct Hor as [Hne|Hs]; [left; intro; subst; apply Hne; reflexivity|right; apply Hs; exact E].
+Qed.
+
+Lemma ssim_pos s s' : ssim s s' -> exists pre, full = pre ++ toks s.
+Proof. intros (_ & _ & (pre & pre' & E & _)). eauto. Qed.
+
 (** * Simple statements *)
 Definition Rs (x x' : stmt) : Prop := er_s x = er_s x'.
 Definition Rb (x x' : block) : Prop := er_b x = er_b x'.
@@ -706,23 +865,32 @@ Proof.
     + eapply rsim_bind; [apply parse_poetic_number_literal_sim; exact H|]. intros el s1 el' s1' -> Hs. split; auto. reflexivity.
 Qed.
 
-Lemma parse_poetic_assignment_sim f i r r' s s' : ssim s s' ->
+Lemma parse_poetic_assignment_sim f i r r' s s' : ssim s s' -> started s -> (exists ti, g_ident ti i) ->
   rsim Rs (parse_poetic_assignment prof buf f i r s) (parse_poetic_assignment prof buf' f i r' s').
 Proof.
-  intro H. unfold parse_poetic_assignment.
-  eapply rsim_bind; [apply parse_assignment_lhs_with_sim; exact H|]. intros d s1 d' s1' Hd H1.
+  intros H Hst [ti Gi]. unfold parse_poetic_assignment.
+  eapply rsim_bind_eq; [apply parse_assignment_lhs_with_sim; exact H|]. intros d s1 d' s1' E1 E1' Hd H1.
+  assert (Hst1 : started s1).
+  { destruct (lhs_with_sound prof f i r s d s1 E1) as (ts & Hp & G).
+    eapply started_step; [exact Hp|eapply ssim_pos; exact H|eapply ssim_pos; exact H1| |right; exact Hst].
+    (* the tokens of the subscripts are tokens of an expression *)
+    specialize (G ti Gi). unfold g_lhs in G. apply g_primary_nlf in G. apply Forall_app in G. exact (proj2 G). }
   pose proof (expect_any_sim [TIs; TApostropheS; TApostropheRE; TSays; TSay] s1 s1' H1) as E.
   destruct (expect_any _ s1) as [[t s2]| | | | |], (expect_any _ s1') as [[t' s2']| | | | |]; try contradiction; cbn [bind]; auto.
-  destruct E as ([Et _] & H2 & Hk). rewrite Et.
-  assert (Hstr : is_says t = true ->
+  destruct E as ([Et _] & H2 & Hk & (pre & pre' & pt & pt' & Ef & Ef' & Hn & Ept & Ept' & Epre)). rewrite Et.
+  assert (Hstr : same_class eq (ptext buf t s2) (ptext buf' t' s2') ->
                  rsim Rs (let* (txt, s3) := parse_poetic_string_rhs buf t s2 in Ok (SPoeticStr d txt, s3))
                          (let* (txt, s3) := parse_poetic_string_rhs buf' t' s2' in Ok (SPoeticStr d' txt, s3))).
-  { intro Hy. eapply rsim_bind; [apply parse_poetic_string_rhs_sim; auto|]. intros x s3 x' s3' -> H3. fin. }
+  { intro Hc. eapply rsim_bind; [apply parse_poetic_string_rhs_sim; auto|]. intros x s3 x' s3' -> H3. fin. }
   assert (Hnum : rsim Rs (let* (rhs, s3) := parse_poetic_number_rhs prof f s2 in Ok (SPoeticNum d rhs, s3))
                          (let* (rhs, s3) := parse_poetic_number_rhs prof f s2' in Ok (SPoeticNum d' rhs, s3))).
   { eapply rsim_bind; [apply parse_poetic_number_rhs_sim; auto|]. intros x s3 x' s3' Hx H3.
     destruct x, x'; cbn in Hx; try contradiction; fin. }
-  unfold is_says in Hstr. rewrite Et in Hstr. destruct (tid t'); try exact Hnum; apply Hstr; reflexivity.
+  destruct (tid t') eqn:Et'; try exact Hnum; apply Hstr.
+  - (* says *) apply Hk. unfold is_says. rewrite Et. reflexivity.
+  - (* say in the middle of a line *)
+    destruct s2 as [l2 ln2 lc2 pl2], s2' as [l2' ln2' lc2' pl2']. cbn [toks] in *.
+    subst t t'. eapply Hsay; eauto.
 Qed.
 
 Lemma count_suffix_sim suffix : forall fuel s s' c, ssim s s' ->
@@ -1063,12 +1231,17 @@ Proof.
   - (* starting with a word *)
     intros s s' H. rewrite !pword_S.
     pose proof (expect_identifier_sim s s' H) as E.
-    destruct (expect_identifier prof s) as [[[i r] s1]| | | | |], (expect_identifier prof s') as [[[i' r'] s1']| | | | |]; cbn [bind] in *; try contradiction; auto.
+    destruct (expect_identifier prof s) as [[[i r] s1]| | | | |] eqn:Eid, (expect_identifier prof s') as [[[i' r'] s1']| | | | |]; cbn [bind] in *; try contradiction; auto.
     destruct E as [Ei H1]. unfold Rfst in Ei. cbn in Ei. subst i'.
+    destruct (expect_identifier_sound prof s i r s1 Eid) as (tsi & Hpi & Gi).
+    assert (Hst : started s1).
+    { destruct (g_ident_nlf tsi i Gi) as [Hne Hnl].
+      eapply started_step; [exact Hpi|eapply ssim_pos; exact H|eapply ssim_pos; exact H1|exact Hnl|left; exact Hne]. }
+    assert (Hgi : exists ti, g_ident ti i) by eauto.
     pose proof (current_sim s1 s1' H1) as C.
-    destruct (current s1) as [t|], (current s1') as [t'|]; try contradiction; [|apply parse_poetic_assignment_sim; exact H1].
+    destruct (current s1) as [t|], (current s1') as [t'|]; try contradiction; [|apply parse_poetic_assignment_sim; auto].
     destruct C as [C1 _]. rewrite C1.
-    destruct (tid t'); try (apply parse_poetic_assignment_sim; exact H1).
+    destruct (tid t'); try (apply parse_poetic_assignment_sim; auto).
     + eapply class_bind; [apply (as_variable_name_sim s1 s1' i r r')|]. intros [n nr] [n' nr'] Hn. unfold Rfst in Hn. cbn in Hn. subst n'.
       apply Hfun; exact H1.
     + eapply class_bind; [apply (as_variable_name_sim s1 s1' i r r')|]. intros [n nr] [n' nr'] Hn. unfold Rfst in Hn. cbn in Hn. subst n'.
@@ -1147,10 +1320,13 @@ Proof.
 Qed.
 
 (** ** C02: the tree depends on the token sequence only *)
-Theorem layout_invariance pts pts' ln lc ln' lc' fuel :
-  tksim pts pts' ->
-  same_class Rprog (parse_blocks prof buf fuel (mkPS pts ln lc false) []) (parse_blocks prof buf' fuel (mkPS pts' ln' lc' false) []).
-Proof. intro H. apply parse_blocks_sim; [split; auto|reflexivity]. Qed.
+Theorem layout_invariance ln lc ln' lc' fuel :
+  tksim full full' ->
+  same_class Rprog (parse_blocks prof buf fuel (mkPS full ln lc false) []) (parse_blocks prof buf' fuel (mkPS full' ln' lc' false) []).
+Proof.
+  intro H. apply parse_blocks_sim; [|reflexivity].
+  split; [exact H|]. split; [reflexivity|]. exists [], []. cbn. auto.
+Qed.
 End Layout.
 
 (** * The relation is reflexive (a source is related to itself), and relates different layouts *)
@@ -1185,20 +1361,61 @@ Definition same_parse (r r' : parse_result) : Prop :=
   | _, _ => False
   end.
 
+(** where a `say` token stands in the middle of a line (the only place where the parser can take it for the
+    marker of a poetic string) the two sources agree on the raw text after it *)
+Definition say_texts_agree (b b' : str) (full full' : list ptoken) : Prop :=
+  forall pre pt l pre' pt' l',
+  full = pre ++ pt :: l -> full' = pre' ++ pt' :: l' -> length pre = length pre' ->
+  tid (pt_tok pt) = TSay -> line_started pre ->
+  forall ln lc pl ln' lc' pl',
+    same_class eq (ptext b (pt_tok pt) (mkPS l ln lc pl)) (ptext b' (pt_tok pt') (mkPS l' ln' lc' pl')).
+
 Theorem parse_layout_invariant prof src src' pts pts' :
   lex prof src = Ok pts -> lex prof src' = Ok pts' ->
   tksim src src' (drop_comments pts) (drop_comments pts') ->
+  say_texts_agree src src' (drop_comments pts) (drop_comments pts') ->
   same_parse (parse prof src) (parse prof src').
 Proof.
-  intros Hl Hl' Hk. unfold parse. rewrite Hl, Hl'. rewrite (tksim_length _ _ _ _ Hk).
-  pose proof (layout_invariance prof src src' _ _ 1%N (mkLoc 1 0) 1%N (mkLoc 1 0) (parse_fuel (length (drop_comments pts'))) Hk) as H.
+  intros Hl Hl' Hk Hs. unfold parse. rewrite Hl, Hl'. rewrite (tksim_length _ _ _ _ Hk).
+  pose proof (layout_invariance prof src src' _ _ Hs 1%N (mkLoc 1 0) 1%N (mkLoc 1 0) (parse_fuel (length (drop_comments pts'))) Hk) as H.
   destruct (parse_blocks prof src _ _ []) as [p| | | | |], (parse_blocks prof src' _ _ []) as [p'| | | | |]; cbn in *; auto; contradiction.
 Qed.
 
+(** every `say` of a source starts a line (as in every program that does not use `say` for `says`): decidable,
+    and then there is no condition on `say` lines at all *)
+Fixpoint say_starts_lines (at_start : bool) (l : list ptoken) : bool :=
+  match l with
+  | [] => true
+  | pt :: t => (if ttype_eqb TSay (tid (pt_tok pt)) then at_start else true) && say_starts_lines (bolflag (pt_tok pt)) t
+  end.
+
+Lemma say_starts_split : forall pre b pt l, say_starts_lines b (pre ++ pt :: l) = true -> tid (pt_tok pt) = TSay ->
+  match rev pre with p :: _ => bolflag (pt_tok p) | [] => b end = true.
+Proof.
+  induction pre as [|x pre IH]; intros b pt l H Ht; cbn in H.
+  - rewrite Ht in H. cbn in H. apply andb_true_iff in H as [H _]. exact H.
+  - apply andb_true_iff in H as [_ H]. specialize (IH _ _ _ H Ht). cbn [rev].
+    destruct (rev pre) as [|p r]; cbn; auto.
+Qed.
+
+Lemma say_starts_agree b b' full full' : say_starts_lines true full = true -> say_texts_agree b b' full full'.
+Proof.
+  intros H pre pt l pre' pt' l' E _ _ Ht Hst. exfalso. subst full.
+  pose proof (say_starts_split pre true pt l H Ht) as K. unfold line_started, nlf in Hst.
+  destruct (rev pre); [contradiction|]. rewrite K in Hst. discriminate.
+Qed.
+
+Corollary parse_layout_invariant_say prof src src' pts pts' :
+  lex prof src = Ok pts -> lex prof src' = Ok pts' ->
+  tksim src src' (drop_comments pts) (drop_comments pts') ->
+  say_starts_lines true (drop_comments pts) = true ->
+  same_parse (parse prof src) (parse prof src').
+Proof. intros Hl Hl' Hk Hs. eapply parse_layout_invariant; eauto. apply say_starts_agree. exact Hs. Qed.
+
 (** non-vacuity: the same two statements laid out differently (indentation, runs of spaces, a comment, a tab) have
     different token lists (offsets, ranges) that are related, hence the same tree up to positions *)
-Definition ex_a : str := lit "put 1 into X" ++ [10%N] ++ lit "build X up, up" ++ [10%N].
-Definition ex_b : str := lit "  put   1 into (the counter) X" ++ [10%N; 9%N] ++ lit "build X   up,  up" ++ [10%N].
+Definition ex_a : str := lit "put 1 into X" ++ [10%N] ++ lit "build X up, up" ++ [10%N] ++ lit "say X plus 1" ++ [10%N].
+Definition ex_b : str := lit "  put   1 into (the counter) X" ++ [10%N; 9%N] ++ lit "build X   up,  up" ++ [10%N] ++ lit "   say   X    plus 1  " ++ [10%N].
 Definition ex_pa : list ptoken := Eval vm_compute in match lex Debug ex_a with Ok l => l | _ => [] end.
 Definition ex_pb : list ptoken := Eval vm_compute in match lex Debug ex_b with Ok l => l | _ => [] end.
 
@@ -1214,6 +1431,6 @@ Example layout_example :
   same_parse (parse Debug ex_a) (parse Debug ex_b) /\ exists p, parse Debug ex_a = ParseOk p.
 Proof.
   split; [vm_compute; reflexivity|]. split; [vm_compute; reflexivity|]. split; [vm_compute; discriminate|].
-  split; [eapply parse_layout_invariant; [vm_compute; reflexivity|vm_compute; reflexivity|exact ex_related]|].
+  split; [eapply parse_layout_invariant_say; [vm_compute; reflexivity|vm_compute; reflexivity|exact ex_related|vm_compute; reflexivity]|].
   eexists. vm_compute. reflexivity.
 Qed.
